@@ -44,11 +44,26 @@ type Target struct {
 	Env     map[string]EnvSpec `json:"env,omitempty"`
 	Skip    []string           `json:"skip,omitempty"`   // statements whose text starts with one of these are ignored (logging, hashing, error plumbing)
 	Option  bool               `json:"option,omitempty"` // fragment: a bare return inside it yields None, falling through yields Some outputs
+	KeyedBy *KeyedBySpec       `json:"keyedby,omitempty"` // list of (field, string key): which string-keyed lookup feeds each field of a composite literal
+	CallArg *CallArgSpec       `json:"callarg,omitempty"` // translate the index-th argument of the first call of this function (text of the callee) inside Func
 	FuncLit string             `json:"funclit,omitempty"` // translate the function literal assigned to this variable inside Func (as if it were a function)
 	Body    bool               `json:"body,omitempty"`   // fragment = the whole body of a function without result (Free = variables live on entry)
 	Marks   map[string]string  `json:"marks,omitempty"`  // "f" -> v: a statement `go f(...)` / `f(...)` is the assignment v = true (v a Free bool): which side effects a path triggers
 	IfCond  string             `json:"ifcond,omitempty"` // translate the condition of the (first) if statement of the function whose condition reads exactly so
 	Doc     string             `json:"doc,omitempty"`
+}
+
+type CallArgSpec struct {
+	Call      string `json:"call"`
+	Index     int    `json:"index"`
+	FieldName bool   `json:"fieldname,omitempty"` // the argument is a receiver field (s.f or *s.f): emit its name as a string (which field is passed)
+}
+
+// KeyedBySpec: in Func, the composite literal of type Composite has fields whose value is a local variable v;
+// v is assigned from a call Via(..., "K") (v, err := Via(...)), or inside `if tmp, err := Via(..., "K"); ... { v = &tmp }`.
+type KeyedBySpec struct {
+	Composite string `json:"composite"`
+	Via       string `json:"via"`
 }
 
 type Config struct {
@@ -963,7 +978,7 @@ func main() {
 	fset := token.NewFileSet()
 	files := map[string]*ast.File{}
 	pkgFiles := map[string][]*ast.File{}
-	header := "(* GENERATED by gotrans from the repository's current source; do not edit.\n   One definition per configured Go function / statement fragment / if condition of group %s;\n   machine arithmetic explicit (u64, i64, sat64, ediv, whole_seconds from Lib/GoInt.v). *)\nFrom Coq Require Import ZArith Bool.\nFrom Verif Require Import Lib.GoInt%s.\nOpen Scope Z_scope.\n\n"
+	header := "(* GENERATED by gotrans from the repository's current source; do not edit.\n   One definition per configured Go function / statement fragment / if condition of group %s;\n   machine arithmetic explicit (u64, i64, sat64, ediv, whole_seconds from Lib/GoInt.v). *)\nFrom Coq Require Import ZArith Bool String.\nFrom Verif Require Import Lib.GoInt%s.\nOpen Scope Z_scope.\n\n"
 	gb := map[string]*strings.Builder{}   // group -> body
 	gdeps := map[string]map[string]bool{} // group -> groups whose definitions it calls
 	gerr := map[string]string{}           // group -> first failure
@@ -1044,6 +1059,78 @@ func main() {
 					panic(failure{fmt.Sprintf("%s: no function literal assigned to %s in %s", t.File, t.FuncLit, t.Func)})
 				}
 				fd = &ast.FuncDecl{Name: &ast.Ident{Name: t.Func + "." + t.FuncLit, NamePos: fl.Pos()}, Type: fl.Type, Body: fl.Body}
+			}
+			if t.KeyedBy != nil {
+				tx := (&gen{fset: fset}).text
+				keyOfCall := func(e ast.Expr) (string, bool) {
+					ce, ok := e.(*ast.CallExpr)
+					if !ok || tx(ce.Fun) != t.KeyedBy.Via {
+						return "", false
+					}
+					for _, a := range ce.Args {
+						if lit, ok := a.(*ast.BasicLit); ok && lit.Kind == token.STRING {
+							return strings.Trim(lit.Value, "\""), true
+						}
+					}
+					return "", false
+				}
+				varKey := map[string]string{}
+				ast.Inspect(fd.Body, func(n ast.Node) bool {
+					switch x := n.(type) {
+					case *ast.AssignStmt:
+						if len(x.Rhs) == 1 && len(x.Lhs) >= 1 {
+							if k, ok := keyOfCall(x.Rhs[0]); ok {
+								if id, ok := x.Lhs[0].(*ast.Ident); ok {
+									if _, dup := varKey[id.Name]; !dup {
+										varKey[id.Name] = k
+									}
+								}
+							}
+						}
+					case *ast.IfStmt:
+						if as, ok := x.Init.(*ast.AssignStmt); ok && len(as.Rhs) == 1 && len(as.Lhs) >= 1 {
+							if k, ok := keyOfCall(as.Rhs[0]); ok {
+								tmp, _ := as.Lhs[0].(*ast.Ident)
+								for _, st := range x.Body.List {
+									if a2, ok := st.(*ast.AssignStmt); ok && len(a2.Lhs) == 1 && len(a2.Rhs) == 1 && tmp != nil {
+										if id, ok := a2.Lhs[0].(*ast.Ident); ok && (tx(a2.Rhs[0]) == "&"+tmp.Name || tx(a2.Rhs[0]) == tmp.Name) {
+											varKey[id.Name] = k
+										}
+									}
+								}
+							}
+						}
+					}
+					return true
+				})
+				var pairs []string
+				ast.Inspect(fd.Body, func(n ast.Node) bool {
+					cl, ok := n.(*ast.CompositeLit)
+					if !ok || cl.Type == nil || tx(cl.Type) != t.KeyedBy.Composite {
+						return true
+					}
+					for _, el := range cl.Elts {
+						kv, ok := el.(*ast.KeyValueExpr)
+						if !ok {
+							continue
+						}
+						if id, ok := kv.Value.(*ast.Ident); ok {
+							if k, ok := varKey[id.Name]; ok {
+								pairs = append(pairs, fmt.Sprintf("(\"%s\", \"%s\")%%string", tx(kv.Key), k))
+							}
+						}
+					}
+					return false
+				})
+				if len(pairs) == 0 {
+					panic(failure{fmt.Sprintf("%s: no %s literal with fields fed by %s in %s", t.File, t.KeyedBy.Composite, t.KeyedBy.Via, t.Func)})
+				}
+				sort.Strings(pairs)
+				b := gb[t.Group]
+				fmt.Fprintf(b, "(* %s — %s %s: fields of the %s literal and the string key of the %s call that feeds each (sorted) *)\n", t.Name, t.File, t.Func, t.KeyedBy.Composite, t.KeyedBy.Via)
+				fmt.Fprintf(b, "Definition %s : list (string * string) :=\n  (%s :: nil)%%list.\n\n", t.Name, strings.Join(pairs, " ::\n   "))
+				defs[t.Name] = nil
+				return
 			}
 			curMarks = t.Marks
 			curFset = fset
@@ -1136,7 +1223,7 @@ func main() {
 						fparams = append(fparams, param{n.Name, c})
 					}
 				}
-				if t.IfCond == "" {
+				if t.IfCond == "" && t.CallArg == nil {
 					if fd.Type.Results == nil || len(fd.Type.Results.List) != 1 {
 						fail(fset.Position(fd.Pos()), "exactly one result expected")
 					}
@@ -1166,14 +1253,20 @@ func main() {
 				}
 			}
 			var term string
-			if t.IfCond != "" {
+			if t.IfCond != "" || t.CallArg != nil {
 				var found ast.Expr
 				ast.Inspect(fd.Body, func(n ast.Node) bool {
-					if is, ok := n.(*ast.IfStmt); ok && found == nil && g.text(is.Cond) == t.IfCond {
+					if is, ok := n.(*ast.IfStmt); ok && found == nil && t.IfCond != "" && g.text(is.Cond) == t.IfCond {
 						found = is.Cond
+					}
+					if ce, ok := n.(*ast.CallExpr); ok && found == nil && t.CallArg != nil && g.text(ce.Fun) == t.CallArg.Call && t.CallArg.Index < len(ce.Args) {
+						found = ce.Args[t.CallArg.Index]
 					}
 					return found == nil
 				})
+				if found == nil && t.CallArg != nil {
+					fail(fset.Position(fd.Pos()), "no call of %s with an argument %d in %s", t.CallArg.Call, t.CallArg.Index, t.Func)
+				}
 				if found == nil {
 					fail(fset.Position(fd.Pos()), "no if statement with condition %q in %s", t.IfCond, t.Func)
 				}
@@ -1184,12 +1277,25 @@ func main() {
 					g.vars[n] = c
 					fparams = append(fparams, param{n, c})
 				}
-				e, c := g.expr(found)
-				if c != "bool" {
+				var e, c string
+				if t.CallArg != nil && t.CallArg.FieldName {
+					x := found
+					if st, ok := x.(*ast.StarExpr); ok {
+						x = st.X
+					}
+					sel, ok := x.(*ast.SelectorExpr)
+					if id, ok2 := sel.X.(*ast.Ident); !ok || !ok2 || id.Name != g.recv || g.recv == "" {
+						fail(fset.Position(found.Pos()), "argument %s is not a receiver field", g.text(found))
+					}
+					e, c = "\""+sel.Sel.Name+"\"%string", "string"
+				} else {
+					e, c = g.expr(found)
+				}
+				if c != "bool" && t.CallArg == nil {
 					fail(fset.Position(found.Pos()), "condition of class %s", c)
 				}
 				term = e
-				retTypes[t.Name] = "bool"
+				retTypes[t.Name] = c
 				body = []ast.Stmt{&ast.ExprStmt{X: found}}
 			} else if t.From == "" && !t.Body {
 				term = g.stmts(body, 1, func() string {
@@ -1238,7 +1344,10 @@ func main() {
 			}
 			defs[t.Name] = ps
 			var src bytes.Buffer
-			if t.IfCond != "" {
+			if t.CallArg != nil {
+				fmt.Fprintf(&src, "argument %d of %s(...): ", t.CallArg.Index, t.CallArg.Call)
+				printer.Fprint(&src, fset, body[0].(*ast.ExprStmt).X)
+			} else if t.IfCond != "" {
 				src.WriteString("if " + t.IfCond + " { ... }")
 			} else if t.From == "" && !t.Body {
 				printer.Fprint(&src, fset, fd)
